@@ -24,9 +24,11 @@ FLOOR = 500
 FILE = "breezy/merge.py"
 EXPLANATION = """
 Rule K8 (decision table): breezy/merge.py:Merge3Merger._three_way and _lca_multi_way are first linted for
-data independence (value parameters reach only ==, !=, in, not in, comprehension filters, set(), len(), .pop()
-and calls to each other; every return is a string literal or such a call), which makes the outcome a function of
-the equality pattern of (base, LCAs, this, other) alone. All set partitions of the atoms (5 for the three-way
+data independence (value parameters reach only ==, !=, in, not in, `is None`, comprehension filters, set(), len(),
+all()/any(), .pop() and calls to each other; every return is a label, such a call, or a conditional expression over
+those), which makes the outcome a function of the equality pattern of (base, LCAs, this, other) and of which of the
+values, if any, is None (absent) alone. For up to 3 LCAs every partition is therefore evaluated once as it is and once
+per class with that class being None. All set partitions of the atoms (5 for the three-way
 rule; 15/52/203 for 1/2/3 LCAs, times both values of allow_overriding_lca) are then evaluated on the AST by the
 abstract evaluator, giving exhaustive decision tables. Laws checked on every row: result in {this, other,
 conflict}; swap symmetry (exchanging THIS and OTHER exchanges 'this'/'other', keeps 'conflict'; both sides equal
@@ -39,8 +41,26 @@ filtered LCA values are distinguishable, all realised at 3 LCAs), not by enumera
 ASSUMPTIONS = ["values compared by the merge rules have reflexive, symmetric, transitive == and consistent hashing"]
 
 ALLOWED_STMTS = (ast.If, ast.Return, ast.Assign, ast.Expr)
-ALLOWED_CALLS = {"len", "set", "Merge3Merger._three_way", "Merge3Merger._lca_multi_way", "self._three_way"}
+ALLOWED_CALLS = {"len", "set", "frozenset", "list", "tuple", "bool", "all", "any", "Merge3Merger._three_way", "Merge3Merger._lca_multi_way", "self._three_way"}
 RESULTS = {"this", "other", "conflict"}
+
+
+def _label_expr(v):
+    """A return value that is a label, a delegation to the sibling rule, or a conditional expression over those."""
+    if isinstance(v, ast.Constant):
+        return isinstance(v.value, str) and v.value in RESULTS
+    if isinstance(v, ast.Call):
+        return dotted(v.func) in ALLOWED_CALLS
+    if isinstance(v, ast.IfExp):
+        return _label_expr(v.body) and _label_expr(v.orelse)
+    return False
+
+
+def _with_none(p):
+    """The partition itself (no value is None) and one variant per class in which that class is the value None."""
+    yield p
+    for c in sorted(set(p)):
+        yield tuple(None if x == c else x for x in p)
 
 
 def lint_data_independence(ctx, fn, where, value_params):
@@ -62,6 +82,8 @@ def lint_data_independence(ctx, fn, where, value_params):
                         problems.append(f"returns unknown label {v.value!r}")
                 elif isinstance(v, ast.Call) and dotted(v.func) in ALLOWED_CALLS:
                     pass
+                elif _label_expr(v):
+                    pass  # a conditional expression choosing between labels / delegations
                 else:
                     problems.append(f"return of non-literal `{norm(n)[:60]}`")
         elif isinstance(n, ast.Call):
@@ -72,7 +94,9 @@ def lint_data_independence(ctx, fn, where, value_params):
                 continue
             problems.append(f"call `{norm(n)[:60]}`")
         elif isinstance(n, ast.Compare):
-            for op in n.ops:
+            for op, right in zip(n.ops, n.comparators):
+                if isinstance(op, (ast.Is, ast.IsNot)) and isinstance(right, ast.Constant) and right.value is None:
+                    continue  # None is a distinguished value: the tables enumerate which class (if any) is None
                 if not isinstance(op, (ast.Eq, ast.NotEq, ast.In, ast.NotIn)):
                     problems.append(f"comparison operator {type(op).__name__} in `{norm(n)[:60]}`")
         elif isinstance(n, (ast.BinOp, ast.Subscript, ast.Attribute, ast.Lambda, ast.Dict, ast.JoinedStr, ast.Starred, ast.Await, ast.Yield)):
@@ -120,28 +144,31 @@ def run(ctx):
     it = make_interp(fns)
 
     def T(b, o, t):
+        it.steps = 0
         try:
             return it.call(f3, {"base": b, "other": o, "this": t})
         except Raised as r:
             return "raise:" + r.name
 
     def M(b, lcas, o, t, allow):
+        it.steps = 0
         try:
             return it.call(fl, {"bases": (b, list(lcas)), "other": o, "this": t, "allow_overriding_lca": allow})
         except Raised as r:
             return "raise:" + r.name
 
     table3 = {}
-    for p in set_partitions(3):
-        b, o, t = p
-        table3[p] = T(b, o, t)
+    for p0 in set_partitions(3):
+        for p in _with_none(p0):
+            b, o, t = p
+            table3[p] = T(b, o, t)
     rows = 0
     # laws on the three-way table
     for (b, o, t), r in table3.items():
         rows += 1
         row = f"base={b} other={o} this={t} -> {r}"
         ctx.check("K8-range", w3, r in RESULTS, "result is this/other/conflict: " + row, construct=row)
-        r2 = table3.get(_canon((b, t, o)))
+        r2 = T(b, t, o)
         if o == t:
             ctx.check("K8-swap", w3, r == "this" and r2 == "this", "both sides equal -> 'this' both ways: " + row, construct=row)
         else:
@@ -158,7 +185,7 @@ def run(ctx):
     for k in ((1, 2, 3, 4, 5) if ctx.tier == "thorough" else (1, 2, 3)):  # thorough: up to 5 LCAs (Bell(8) = 4140 partitions x 2)
         n = k + 3
         cnt = 0
-        for p in set_partitions(n):
+        for p in (v for p0 in set_partitions(n) for v in (_with_none(p0) if k <= 3 else (p0,))):
             b, lcas, o, t = p[0], p[1 : 1 + k], p[-2], p[-1]
             for allow in (True, False):
                 cnt += 1
@@ -222,6 +249,20 @@ def _canon(p):
 FLOOR = 20
 
 MUTANTS = [
+    Mutant(
+        "lca: 'no LCA carries the entry' shortcut compares with BASE instead of None",
+        FILE,
+        "        if len(filtered_lca_vals) == 0:\n            return Merge3Merger._three_way(base_val, other, this)\n",
+        "        if len(filtered_lca_vals) == 0:\n            return Merge3Merger._three_way(base_val, other, this)\n        if all(lca_val is None for lca_val in lca_vals):\n            return Merge3Merger._three_way(base_val, other, this)\n",
+        expect=["K8-lca-ext", "K8-unchanged"],
+    ),
+    Mutant(
+        "neutral: three-way result chosen by a conditional expression",
+        FILE,
+        '            # this == base: only other has changed.\n            return "other"',
+        '            # this == base: only other has changed.\n            return "other" if this == base else "conflict"',
+        neutral=True,
+    ),
     Mutant(
         "three_way: swap labels in the 'only other changed' arm",
         FILE,
